@@ -138,6 +138,9 @@ func Any(id int, n int) any {
 	return nil
 }
 
+// Zero is a silent runtime zero (divisions and index expressions that panic at run time).
+func Zero() int { return len(ev) - len(ev) }
+
 // False is a silent runtime false (keeps a statically present yield unreachable).
 func False() bool { return len(ev) < 0 }
 
